@@ -21,7 +21,7 @@ for pid in props:
         "level_note": c["note"],
         "technique": c.get("technique", "contract-based deductive verification: weakest-precondition VCs over go/ssa of the real functions, contracts in zz_contracts_verif.go, discharged by z3/cvc5"),
     })
-na = [{"property_id": p, "reason": claims["not_applicable"].get(p, "check under construction (build phase in progress); see DESIGN.md")} for p in props if p not in claims["claimed"]]
+na = [{"property_id": p, "reason": claims["not_applicable"].get(p, "not claimed: the contracts and registered obligations for this property have not been built yet (its design is in DESIGN.md section 4); no check is registered and nothing is asserted about it")} for p in props if p not in claims["claimed"]]
 m = {
     "version": 1,
     "setup_cmd": "./setup.sh",
